@@ -52,7 +52,7 @@ add("C08", "exploration",
 add("C09", "exploration",
     "exhaustive enumeration over families x orders x triplet orders x right-hand sides x guesses x tolerances x solvers, independent dense LU as reference",
     "Six well-posed families (SPD and strictly diagonally dominant, symmetric and nonsymmetric, mixed-sign diagonals) of order 1..60 in three triplet orders with right-hand sides A x*, 0 and 1e6 A x*, guesses 0 / exact / generic and three tolerances: each applicable solver must answer Ok within 6n+30 iterations and agree with an independent dense LU solution within 10 tol ||A^-1|| ||b||; exact guesses and zero/zero starts must be accepted with x finite. Plus every strictly dominant SPD 2x2/3x3 matrix over a 5-letter alphabet for CG.",
-    "Trusted: independent dense LU and condition estimate. The Lanczos-type solvers are judged on irreducible families only: on reducible lattice members they meet exact breakdowns inherent to the methods (documented in DESIGN.md).",
+    "Trusted: independent dense LU and condition estimate. Known finding (listed by exact input in known_findings.txt, printed as KNOWN-FINDING): exact Lanczos breakdowns of BiCG/BiCGSTAB/QMR on some strictly dominant systems; the Lanczos-type solvers are therefore judged for convergence on the irreducible families only.",
     "DESIGN.md section 6 C09")
 
 add("C10", "exploration",
